@@ -46,6 +46,10 @@ func (w *World) Run() {
 	}()
 	w.Start()
 	w.DriverOK = w.runDriver()
+	if w.ended {
+		w.Outcome = w.outcomeString("driver-end")
+		return
+	}
 	turn := 0
 	idleTurns := 0
 	nc := len(w.Correct)
